@@ -29,7 +29,7 @@ from common import *
 import c04_lib as L
 from c14_lib import INJ, NO_AFTER
 import multiprocessing as mp
-import tempfile, shutil, zipfile, pathlib, gc
+import tempfile, shutil, zipfile, pathlib, gc, hashlib
 
 # ------------------------------------------------------------------------------------ corpus
 CORPUS = {
@@ -297,16 +297,27 @@ def seq_case(name, container, k, steps):
         m = build(name, g)
         keep = (m,)
         prev = {k - i: i for i in range(min(k, 4))}         # complete generation -> slot, before the step
-        seen = {}       # (inode, size, mtime_ns) of a regular file -> what it read back as (renames keep all three)
+        seen = {}       # (inode, size, mtime_ns) of a regular file (renames keep all three) / content hash of a directory
+                        # -> what it read back as: a copy that was only renamed since is not read again
 
         def probe1(path):
             try:
                 st = os.lstat(path)
             except OSError:
                 return ("absent",)
-            if not os.path.isfile(path) or os.path.islink(path):
+            if os.path.islink(path) or not (os.path.isfile(path) or os.path.isdir(path)):
                 return probe(path, name, keep)
-            key = (st.st_ino, st.st_size, st.st_mtime_ns)
+            if os.path.isdir(path):
+                h = hashlib.md5()       # a directory: named by its whole content (sub-directories, file names, bytes)
+                for d, dirs, files in os.walk(path):
+                    dirs.sort()
+                    h.update(("D" + os.path.relpath(d, path) + "\0").encode())
+                    for f in sorted(files):
+                        with open(os.path.join(d, f), "rb") as fh:
+                            h.update(("F" + f + "\0").encode() + fh.read() + b"\0")
+                key = ("dir", h.hexdigest())
+            else:
+                key = (st.st_ino, st.st_size, st.st_mtime_ns)
             if key not in seen:
                 seen[key] = probe(path, name, keep)
             return seen[key]
@@ -483,10 +494,7 @@ sys.exit(1 if bad else 0)
 
 
 # ------------------------------------------------------------------------------------ sequences of saves
-SEQ_CONTAINERS = ("zip",)
-# Directory format: a failed write leaves its partial directory at the path and the next save rotates that into
-# _BAK1, so on the code as it stands consecutive failed directory saves move the last good save to _BAK2, _BAK3 and
-# out.  seq_case evaluates the same contract for "dir"; the enumeration below is run for the containers named here.
+SEQ_CONTAINERS = ("zip", "dir")
 
 
 def keyed(log):
@@ -522,7 +530,7 @@ def select_sequences(log, tier, light=False):
     F = lambda q: (q, "before", "EIO")
     A = lambda q: (q, "after", "EIO")
     can_after = lambda q: q[0] not in NO_AFTER
-    phase = firsts[::2] if tier == "thorough" else firsts[::3]
+    phase = firsts[::3]
     out = []
     for q in rep:
         out.append((F(q), F(q), None))
@@ -660,15 +668,12 @@ def run(res, tier, seed):
                  % (ks, "every" if tier == "thorough" else "first and last occurrence per (operation, call site) of the",
                     "; FileNotFoundError, PermissionError (archive writes) and raise-after on first/middle/last occurrence per (operation, call site)"
                     if tier == "thorough" else ", FileNotFoundError on a quarter of the load points, PermissionError on the archive calls of copy_file"))
-    res.bound += ("; + sequences of 3-5 saves on one path (container %s; %s), ending with a clean save: the same fault twice / "
+    res.bound += ("; + sequences of 3-5 saves on one path (containers %s; %s), ending with a clean save: the same fault twice / "
                   "three times (thorough) / four times in a row, two different faults in a row (one fault point per phase of the save), "
                   "a fault raised after the work then the same fault instead of it, faults separated by clean saves; fault points = "
                   "%s occurrence per (operation, call site) of the clean log, named by (operation, site, occurrence)"
-                  % ("/".join(SEQ_CONTAINERS), "models pickled k=1,4 and io k=4" if tier == "quick" else "3 models x k in 0,1,2,4",
-                     "first and last (io: first)" if tier == "quick" else "first, middle and last"))
-    if "dir" not in SEQ_CONTAINERS:
-        res.bound += (" [sequences are not enumerated for the directory format: there a failed write leaves a partial directory at the "
-                      "path which the next save rotates into _BAK1, see SEQ_CONTAINERS]")
+                  % ("/".join(SEQ_CONTAINERS), "models pickled k=1,4 and io k=4" if tier == "quick" else "pickled x k in 0,1,2,4, plain and io x k in 1,4",
+                     "first (zip, pickled, k=4: and last)" if tier == "quick" else "first, middle and last"))
     res.rule = ("exhaustive over the bound; one evaluation = one injected fault followed by the whole contract (4 slots read back, registry, flags, "
                 "model, following save and load); non-trivial when the fault fired (the call with that index was reached); "
                 "distinct = distinct (scenario, call index, mode, error).  One sequence of saves = one evaluation (the contract is "
@@ -704,10 +709,10 @@ def run(res, tier, seed):
         tasks.sort(key=lambda t: (t[4][0][0] // 12, scenarios.index(t[:4])))
         # sequences of saves on the same path (several consecutive failures, failures between good saves)
         seq_scen = [("seq", n, c, k) for n in (("pickled", "io") if tier == "quick" else models) for c in SEQ_CONTAINERS
-                    for k in (((1, 4) if n == "pickled" else (4,)) if tier == "quick" else (0, 1, 2, 4))]
+                    for k in (((1, 4) if n == "pickled" else (4,)) if tier == "quick" else ((0, 1, 2, 4) if n == "pickled" else (1, 4)))]
         seq_tasks, nseq = [], 0
         for si, sc in enumerate(seq_scen):
-            sqs = select_sequences(logs[("save",) + sc[1:]], tier, light=(tier == "quick" and sc[1] == "io"))
+            sqs = select_sequences(logs[("save",) + sc[1:]], tier, light=(tier == "quick" and (sc[1] == "io" or sc[2:] != ("zip", 4))))
             nseq += len(sqs)
             for ci, i in enumerate(range(0, len(sqs), 4)):
                 seq_tasks.append((ci, si, sc + (sqs[i:i + 4],)))
@@ -735,7 +740,12 @@ def run(res, tier, seed):
                         fired = trace[n - 1][0]
                         st = steps[n - 1]
                         ft = ("op:" + fired[0], "site:" + fired[1], "mode:" + st[1], "error:" + st[2]) if fired else ("clean-save",)
-                        bytag.setdefault(base + ("step:%d" % n, "consecutive-failures:%d" % run_, t) + ft, text)
+                        extra = ()
+                        if run_ >= 2:
+                            extra += ("consecutive-failed-saves",)        # this save and the one before it both raised
+                        if any(exc for _f, exc in trace[:n - 1]):
+                            extra += ("after-failed-save",)               # an earlier save of the sequence raised
+                        bytag.setdefault(base + ("step:%d" % n, "consecutive-failures:%d" % run_, t) + ft + extra, text)
                     for tags, text in sorted(bytag.items()):
                         res.fail(tags=tags, what="saves %s; %s" % (", ".join(
                             "#%d %s" % (i, ("%s at %s (%s) -> %s" % (f[0], f[1], steps[i - 1][1], e or "no exception")) if f else ("clean -> %s" % (e or "ok")))
